@@ -572,6 +572,14 @@ def runOp (op : Op) (t : Loop) : Option (Except Err Loop) :=
   | .roll a b c => some (rollConstant true a b c t)
   | .rollPinned a b c => some (rollConstant false a b c t)
 
+/-- a sequence of rewrites applied to the same program; `none` if one of them raises or is outside the domain -/
+def runPipe : List Op → Loop → Option Loop
+  | [], t => some t
+  | op :: ops, t =>
+    match runOp op t with
+    | some (.ok t') => runPipe ops t'
+    | _ => none
+
 /-- the judge: does output tree `o` (as serialised from the implementation) with the reported
 duration / depth / balance satisfy the property for input `t` and rewrite `op`? -/
 def judgeOk (op : Op) (t o : Loop) (rdurs : List Rat) (rdepth : Nat) (rbal : Bool) : String :=
@@ -604,6 +612,18 @@ def handle : List Sexp → Sexp
       | some (.error e) => errS e
       | some (.ok t') => .list [.atom "ok", loopS t', obsS t']
     | _, _ => Sexp.err "bad-args"
+  | [.atom "runp", .list pres, op, t] =>
+    -- a pipeline: the rewrites `pres` are applied first (all must succeed), then `op` as in `run`
+    match pres.mapM op?, op? op, loop? t with
+    | some pres, some op, some t =>
+      match runPipe pres t with
+      | none => .list [.atom "pre-error"]
+      | some t1 =>
+        match runOp op t1 with
+        | none => .list [.atom "precondition"]
+        | some (.error e) => errS e
+        | some (.ok t') => .list [.atom "ok", loopS t', obsS t']
+    | _, _, _ => Sexp.err "bad-args"
   | [.atom "judge", op, t, .list [.atom "ok", o, rdurs, rdepth, rbal]] =>
     match op? op, loop? t, loop? o, listOf? rat? rdurs, nat? rdepth, bool? rbal with
     | some op, some t, some o, some rdurs, some rdepth, some rbal =>
